@@ -457,6 +457,20 @@ def w_objects(ctx, rng, i):
         except Exception:
             pass
         kinds.append("wrong")
+    # (3b) images: the vector is the pixels the object holds *now* - also after they were edited in place (pixels, mask)
+    if isinstance(o, _mi.Image) and not isinstance(o, _mi.BooleanImage) and o.pixels.dtype.kind == "f" and n:
+        o2 = o.copy()
+        o2.as_vector()
+        o2.pixels[...] = o2.pixels * 0.5 + 1.25
+        if isinstance(o2, _mi.MaskedImage) and o2.mask.pixels.size > 1 and not o2.mask.all_true() and rng.random() < 0.5:
+            flat_ = o2.mask.pixels.reshape(-1)
+            flat_[int(rng.integers(0, flat_.size))] ^= True
+        exp_ = (o2.pixels[:, o2.mask.mask] if isinstance(o2, _mi.MaskedImage) else o2.pixels).reshape(-1)
+        got_ = np.asarray(o2.as_vector())
+        ctx.tap("vector_after_in_place_edits", "calls"); ctx.tap("vector_after_in_place_edits", "checked")
+        if got_.shape != exp_.shape or not np.array_equal(got_, exp_):
+            ctx.fail("as_vector_not_repeatable", cls=cls, mech="vector_does_not_follow_in_place_edits_of_the_pixels_or_mask")
+        kinds.append("edited_in_place")
     # (4) as_vector twice gives equal vectors and later edits of the object do not reach an earlier vector's values
     v3 = o.as_vector()
     if not np.array_equal(np.asarray(v), np.asarray(v3)):
